@@ -126,9 +126,14 @@ func init() {
 			}
 			return s
 		},
-		Run:   c17Run,
-		Rule:  "(partial) 10 bodies (text, output tags of outer/data names, loop, conditional, let inside, counting marker, quotes/backslash, nested partial, nested partial with layout) x 5 data maps (none, empty, shadowing an outer name, fresh name, both) x layout {none, layout, layout whose template itself uses a partial with a layout, .js layout} x content type {unset, text/html, application/javascript} x partial name extension {.html, .js, none} x position (top level, inside for, inside if, inside a helper block, inside a user function): output equals the composition at string level of the same sources rendered by plush itself as standalone templates in the equivalent scope (JS case: JSEscapeString of it), a counting marker shows every insertion happened exactly once. (content) every sequence of <=4 items from {contentFor(c1){…}, contentFor(c2){…}, contentOf(c1|c2|undefined) with/without data and with/without default block}: contentFor emits nothing where defined, each contentOf emits the stored block rendered with its data in a child of the definition scope (or its default block, or the render fails when undefined), later definitions win. (blocks) block helpers using Block() / BlockWith(child) / calling Block() twice over the same bodies and placements: the string the helper received equals the inline rendering. Non-trivial: all cases with a non-text body or data.",
-		Bound: func(th bool) string { return "all listed combinations; content programs of <=4 items" },
+		Run:  c17Run,
+		Rule: "(partial) 10 bodies (text, output tags of outer/data names, loop, conditional, let inside, counting marker, quotes/backslash, nested partial, nested partial with layout) x 5 data maps (none, empty, shadowing an outer name, fresh name, both) x layout {none, layout, layout whose template itself uses a partial with a layout, .js layout} x content type {unset, text/html, application/javascript} x partial name extension {.html, .js, none} x position (top level, inside for, inside if, inside a helper block, inside a user function): output equals the composition at string level of the same sources rendered by plush itself as standalone templates in the equivalent scope (JS case: JSEscapeString of it), a counting marker shows every insertion happened exactly once. (content) every sequence of <=4 items from {contentFor(c1){…}, contentFor(c2){…}, contentOf(c1|c2|undefined) with/without data and with/without default block}: contentFor emits nothing where defined, each contentOf emits the stored block rendered with its data in a child of the definition scope (or its default block, or the render fails when undefined), later definitions win. (blocks) block helpers using Block() / BlockWith(child) / calling Block() twice over the same bodies and placements: the string the helper received equals the inline rendering. Non-trivial: all cases with a non-text body or data.",
+		Bound: func(th bool) string {
+			if th {
+				return "all listed combinations; content programs of <=5 items"
+			}
+			return "all listed combinations; content programs of <=4 items"
+		},
 	})
 }
 
@@ -294,7 +299,13 @@ type c17Item struct {
 	inner string // "" | for | fn : the use sits inside a for / user-function body and is followed by that scope's variable
 }
 
+var c17MaxItems = 4
+
 func c17Content(t *engine.T) {
+	c17MaxItems = 4
+	if t.Thorough {
+		c17MaxItems = 5
+	}
 	var items []c17Item
 	for _, n := range []string{"c1", "c2"} {
 		items = append(items, c17Item{"def", n, false, false, ""}, c17Item{"def2", n, false, false, ""})
@@ -408,7 +419,7 @@ func c17Content(t *engine.T) {
 				return "equal-inline", nil
 			})
 		}
-		if len(seq) == 4 {
+		if len(seq) == c17MaxItems {
 			return
 		}
 		// a program whose last item already fails the render is not extended further
